@@ -18,7 +18,9 @@ func init() { engines["expiry"] = engExpiry }
 
 // C25: expired messages are not delivered, expiry intervals only shrink.  One case per message copy:
 //
-//	(smax interval ver5 place created storedExpiry (event ...))
+//	(smax interval ver5 subver5 place created storedExpiry (event ...))
+//	  ver5 = the PUBLISHER is an MQTT 5 client; subver5 = the receiving client is (only then does the
+//	  delivered PUBLISH carry a Message Expiry Interval)
 //	  place 0 = retained store, 1 = in-flight of a parked (offline) session, 2 = in-flight held back by
 //	  flow control (receive maximum 1 with one message outstanding)
 //	  created / storedExpiry = what the broker stored for the copy (unix seconds; storedExpiry signed)
@@ -30,6 +32,7 @@ type expScenario struct {
 	smax     int64
 	interval uint32
 	pubver   byte
+	subver   byte // protocol version of the receiving client (0 = 5)
 	place    int
 	deltas   []int64 // housekeeping at created + eff + delta
 	sleep    time.Duration
@@ -61,6 +64,9 @@ func findPayload(outs []broker.Out, conn int, payload string) (bool, uint32) {
 }
 
 func runExpiry(sc expScenario) (sx.V, bool) {
+	if sc.subver == 0 {
+		sc.subver = 5
+	}
 	caps := mqtt.NewDefaultServerCapabilities()
 	caps.MaximumMessageExpiryInterval = sc.smax
 	b := broker.New(broker.Opts{Caps: caps, Auth: broker.AllowAuth, ACL: broker.AllowACL})
@@ -68,7 +74,7 @@ func runExpiry(sc expScenario) (sx.V, bool) {
 	p := b.Connect("10.0.0.1:1", broker.ConnectPk("p", sc.pubver, true))
 	var s *broker.Conn
 	connectS := func() {
-		pk := broker.ConnectPk("s", 5, false)
+		pk := broker.ConnectPk("s", sc.subver, false)
 		pk.Properties.SessionExpiryInterval = 100000
 		pk.Properties.SessionExpiryIntervalFlag = true
 		if sc.place == 2 {
@@ -148,7 +154,7 @@ func runExpiry(sc expScenario) (sx.V, bool) {
 		switch sc.place {
 		case 0:
 			late++
-			pk := broker.ConnectPk(fmt.Sprintf("late%d", late), 5, true)
+			pk := broker.ConnectPk(fmt.Sprintf("late%d", late), sc.subver, true)
 			l := b.Connect("10.0.0.3:1", pk)
 			b.Drain()
 			_ = b.SendPacket(l, broker.SubscribePk(1, packets.Subscription{Filter: "e/#", Qos: 1}))
@@ -185,7 +191,7 @@ func runExpiry(sc expScenario) (sx.V, bool) {
 	if !ver5 {
 		sc.interval = 0 // an MQTT 3 publisher cannot send the property
 	}
-	return sx.L{zs(sc.smax), sx.N(uint64(sc.interval)), sx.Bool(ver5), sx.N(uint64(sc.place)), zs(created), zs(stored), evs}, !b.Hung
+	return sx.L{zs(sc.smax), sx.N(uint64(sc.interval)), sx.Bool(ver5), sx.Bool(sc.subver == 5), sx.N(uint64(sc.place)), zs(created), zs(stored), evs}, !b.Hung
 }
 
 func engExpiry(seed int64, tier string, _ []string, out *sx.Out) {
@@ -223,6 +229,29 @@ func engExpiry(seed int64, tier string, _ []string, out *sx.Out) {
 			}
 		}
 	}
+	// mixed protocol versions: whether a message has an expiry of its own is decided by the PUBLISHER's
+	// message (version 5 + interval), whoever receives it; the copy waits in the retained store or in the
+	// in-flight store of a parked MQTT 3.1 / 3.1.1 session (such a client is never held back by a send quota)
+	for _, m := range []int64{0, 3, 86400} {
+		for _, i := range []uint32{1, 2, 5} {
+			for _, sv := range []byte{4, 3} {
+				for place := 0; place < 2; place++ {
+					for _, d := range deltas {
+						emit(expScenario{smax: m, interval: i, pubver: 5, subver: sv, place: place, deltas: []int64{d}})
+					}
+				}
+			}
+		}
+		for _, pv := range []byte{4, 3} {
+			for _, sv := range []byte{4, 3} {
+				for place := 0; place < 2; place++ {
+					for _, d := range deltas {
+						emit(expScenario{smax: m, pubver: pv, subver: sv, place: place, deltas: []int64{d}})
+					}
+				}
+			}
+		}
+	}
 	// random: two housekeeping runs in either order, other offsets
 	n := 120
 	if tier == "thorough" {
@@ -234,6 +263,9 @@ func engExpiry(seed int64, tier string, _ []string, out *sx.Out) {
 			place: rng.Intn(3), deltas: []int64{offs[rng.Intn(len(offs))], offs[rng.Intn(len(offs))]}}
 		if rng.Intn(6) == 0 {
 			sc.pubver = 3
+		}
+		if sc.place != 2 && rng.Intn(3) == 0 {
+			sc.subver = []byte{4, 3}[rng.Intn(2)]
 		}
 		emit(sc)
 	}
